@@ -260,9 +260,10 @@ func (c *Ctx) serRoundTrips(n int, stream string) {
 }
 
 func checkC11(c *Ctx) {
-	c.Ev.Coverage.Rule = "tapes from Parse/ParseND, optionally edited in place (Set*, DeleteElems), including one beyond both 64 KiB flush blocks with 24000 strings (distinct + repeated) per run; every serializing CompressMode x a random deserializing mode, per-mode and shared Serializers switching modes, reused destination; checks: Deserialize succeeds, canonical document incl. number types and float flags equal, result passes wf_check, the noasm build reads the same bytes to the same document, the blob's sections are a faithful encoding per the model (ser_check, for any hash), the model's reconstruction of the tape from the sections equals the implementation's, the uncompressed framing model agrees byte for byte, and the model's own round trip (with a collision-rich hash) preserves the denotation; a reused Serializer on 120 k (short, short+suffix) string pairs after a call that left the longer string in its buffer (hash-bucket collisions 1 in 2^14). non-trivial = completed round trip; distinct = by (modes, document)"
+	c.Ev.Coverage.Rule = "tapes from Parse/ParseND, optionally edited in place (Set*, DeleteElems), including one beyond both 64 KiB flush blocks with 24000 strings (distinct + repeated) per run; every serializing CompressMode x a random deserializing mode, per-mode and shared Serializers switching modes, reused destination; checks: Deserialize succeeds, canonical document incl. number types and float flags equal, result passes wf_check, the noasm build reads the same bytes to the same document, the blob's sections are a faithful encoding per the model (ser_check, for any hash), the model's reconstruction of the tape from the sections equals the implementation's, the uncompressed framing model agrees byte for byte, and the model's own round trip (with a collision-rich hash) preserves the denotation; a reused Serializer on 120 k (short, short+suffix) string pairs after a call that left the longer string in its buffer (hash-bucket collisions 1 in 2^14); one tape with > 1 MiB of values and > 1 MiB of distinct strings in every mode, fresh and reused destination. non-trivial = completed round trip; distinct = by (modes, document)"
 	c.serRoundTrips(c.N(700, 8000), "roundtrip")
 	c.c11StaleStrings(c.N(120000, 1500000))
+	c.c11HugeSections()
 }
 
 // ---- helper process built with -tags noasm ----
@@ -351,6 +352,69 @@ func (c *Ctx) c11StaleStrings(n int) {
 			c.Violate("roundtrip", "a reused Serializer returned a different document (string dedup probe against a stale part of its string buffer)", "ser-stale-strings",
 				map[string]interface{}{"first_doc": string(docA), "doc_text": string(docB), "got": trunc(got, 300), "error": fmt.Sprint(e2)})
 			return
+		}
+	}
+}
+
+// c11HugeSections: one document whose values stream and whose string table both
+// exceed 1 MiB (more than one block of the S2/zstd framing, far beyond the 64 KiB
+// flush blocks), round-tripped in every serializing mode into a fresh and into a
+// reused destination.  Judged by the canonical dump only (too large for the oracle).
+func (c *Ctx) c11HugeSections() {
+	var sb strings.Builder
+	sb.WriteString("[")
+	for i := 0; i < 150000; i++ {
+		if i > 0 {
+			sb.WriteString(",")
+		}
+		if i%5 < 2 {
+			fmt.Fprintf(&sb, `"distinct-string-number-%07d"`, i)
+		} else {
+			fmt.Fprintf(&sb, "%d", int64(i)*7919-350000000)
+		}
+	}
+	sb.WriteString("]")
+	doc := []byte(sb.String())
+	pj, err := simdjson.Parse(doc, nil)
+	if err != nil {
+		return
+	}
+	want, werr := dumpDoc(pj)
+	if werr != nil {
+		return
+	}
+	var dst *simdjson.ParsedJson
+	for _, m := range compModes {
+		s := simdjson.NewSerializer()
+		s.CompressMode(m)
+		blob, pan := safeSerialize(s, pj)
+		c.Ev.Count("huge-sections", []byte(fmt.Sprint("huge", m)), true)
+		info := map[string]interface{}{"doc_text": fmt.Sprintf("array of 150000 elements: 60000 distinct 30-byte strings and 90000 integers (%d bytes)", len(doc)), "mode": fmt.Sprint(m), "blob_len": len(blob)}
+		if pan != "" {
+			info["panic"] = pan
+			c.Violate("roundtrip", "Serialize panicked on a large tape", "ser-huge-panic", info)
+			continue
+		}
+		for round := 0; round < 2; round++ {
+			back, e2, pan2 := safeDeserialize(simdjson.NewSerializer(), blob, dst)
+			got := ""
+			if e2 == nil && pan2 == "" {
+				got, _ = dumpDoc(back)
+				dst = back
+			}
+			if got != want {
+				info["error"] = fmt.Sprint(e2, pan2)
+				info["reused_destination"] = round == 1
+				for k := 0; k < len(got) && k < len(want); k++ {
+					if got[k] != want[k] {
+						info["first_difference_at_dump_offset"] = k
+						info["got_there"], info["want_there"] = trunc(got[k:], 80), trunc(want[k:], 80)
+						break
+					}
+				}
+				c.Violate("roundtrip", "a tape with more than 1 MiB of values and of strings does not round-trip", "ser-huge", info)
+				break
+			}
 		}
 	}
 }
